@@ -493,23 +493,7 @@ class C07(core.Check):
 
     def model_list_token(self, case):
         tok = case['tok']
-        lead, trail = tok[0], tok[1:]
-        pfx = core.zl(list(self.LT_PREFIX))
-        if 0x11 <= lead <= 0x1b:
-            body = '(Ok (dec_str (%d - 17)))' % lead
-        elif lead == 0x0f:
-            body = '(Ok (dec_str %d))' % trail[0]
-        elif lead == 0x1c:
-            body = '(v_to_repr (VInt %s) false true)' % core.zl(trail)
-        elif lead in (0x0d, 0x0e):
-            body = '(Ok (dec_str (i_uval %s)))' % core.zl(trail)
-        elif lead == 0x0b:
-            body = '(Ok ([38; 79] ++ i_to_oct %s))' % core.zl(trail)
-        elif lead == 0x0c:
-            body = '(Ok ([38; 72] ++ i_to_hex %s))' % core.zl(trail)
-        else:
-            body = '(v_to_repr (%s %s) false true)' % ('VSng' if lead == 0x1d else 'VDbl', core.zl(trail))
-        return '(enc_str (rmap (fun s => %s ++ s) %s))' % (pfx, body)
+        return '(c07_list %d %s)' % (tok[0], core.zl(tok[1:]))
 
     def impl_step(self, case):
         """one scaling step of the real Float class on a denormalised triple (exp, man, neg)"""
